@@ -239,8 +239,16 @@ def run_fonts(report, n, rng):
         width = 0 if prop else rng.choice([upem, asc - desc, round(upem * 1.275), round(upem * 0.8)])
         over = dict(color_format=fmt, upem=upem, ascender=asc, descender=desc, width=width, bitmap_resolution=res)
         srcs = []
-        for k in range(rng.randint(1, 4)):
+        # the first two fonts: a fixed width above the em, a first bitmap that is NOT square followed by square ones (round 7:
+        # each glyph's horizontal offset comes from its own bitmap, not from the first one's)
+        mixed = i < 2
+        if mixed:
+            prop, width = False, round((asc - desc) * 1.0625)
+            over.update(width=width)
+        for k in range(3 if mixed else rng.randint(1, 4)):
             w = res if not prop else max(1, round(res * rng.choice([1, 0.5, 0.75, 1.5, 1.9])))
+            if mixed and k == 0:
+                w = round(res * 1.25)
             cps = (0x1F600 + 2 * k,)
             srcs.append((build.filename_for(cps), '<svg xmlns="http://www.w3.org/2000/svg" viewBox="0 0 10 10"/>', cps, png_for(k + i, w, res)))
         case = dict(kind="e2e", format=fmt, config=over, images=[[len(s[3])] for s in srcs])
@@ -278,6 +286,7 @@ def run_fonts(report, n, rng):
                     probs.append(f"{g}: CBDT image differs from the source PNG")
                 px_adv = sd[g].metrics.Advance
                 top = sd[g].metrics.BearingY
+                x_off = sd[g].metrics.BearingX
                 if abs(top - asc * ppem / upem) > 2.0:
                     probs.append(f"{g}: CBDT BearingY {top} px, the ascender at this ppem is {asc * ppem / upem:.1f} px")
             else:
@@ -288,6 +297,7 @@ def run_fonts(report, n, rng):
                 ppem = stl[0].ppem
                 px_adv = None
                 bottom = stl[0].glyphs[g].originOffsetY  # bottom edge of the bitmap relative to the baseline, y up
+                x_off = stl[0].glyphs[g].originOffsetX
                 if abs(bottom - desc * ppem / upem) > 2.0:
                     probs.append(f"{g}: sbix originOffsetY {bottom} px, the descender at this ppem is {desc * ppem / upem:.1f} px")
             if ppem != want_ppem:
@@ -300,9 +310,12 @@ def run_fonts(report, n, rng):
                 probs.append(f"{g}: font advance {adv} = {scaled:.1f} px at ppem {ppem}, the bitmap box is {want_px:.1f} px wide")
             if px_adv is not None and abs(px_adv - scaled) > 1.0:
                 probs.append(f"{g}: pixel advance {px_adv} != scaled font advance {scaled:.1f}")
+            # horizontally the bitmap sits in the middle of the advance (square bitmaps, and everything in proportional mode)
+            if (prop or w_px == res) and abs((x_off + w_px / 2) - scaled / 2) > 1.5:
+                probs.append(f"{g}: bitmap {w_px} px wide at x offset {x_off} px, the advance is {scaled:.1f} px: centre off by {(x_off + w_px / 2) - scaled / 2:.1f} px")
             report.count(("font", fmt, str(over), fn, len(png)), True)
         report.hist("fonts.outcome", "problems" if probs else "ok")
-        report.hist("fonts.format", fmt + (" proportional" if prop else " fixed width"))
+        report.hist("fonts.format", fmt + (" proportional" if prop else " fixed width") + (", first bitmap not square" if mixed else ""))
         if probs:
             case["problems"] = probs[:5]
             report_failure(report, f"font_{i}", case)
